@@ -52,20 +52,23 @@ def run(ctx):
     abort_field = T.data_field('AbortHandle')
     rm = lambda x: any(P.is_call(r, *MAP_REMOVALS) for r, _ in P.root(x))
     n_ab = n_tm = 0
+    from .common import own_sites
+    ctx_m = {b_.id for b_ in T.bodies(m)}
     for g in T.bodies(m):
         for bb, t in g.calls():
             if callee_is(t, 'AbortHandle::abort'):
                 n_ab += 1
-                rs = P.root(P.operand(g, t['args'][0], at=bb))
+                rs = P.root(P.operand(g, t['args'][0], at=bb), through_params=T.is_helper, callers=ctx_m)
                 ok = bool(rs) and all(P.is_call(r, *MAP_REMOVALS) and abort_field in P.fpath(p) for r, p in rs)
                 R.ob('C04.abort', ('server table aborting removal', 'aborts the removed entry'), ok, 'the handle aborted is the one stored in the entry removed for the id', [g.loc(t)])
             if callee_is(t, 'DelayQueue::remove'):
                 n_tm += 1
-                rs = P.root(P.operand(g, t['args'][1], at=bb))
+                rs = P.root(P.operand(g, t['args'][1], at=bb), through_params=T.is_helper, callers=ctx_m)
                 ok = bool(rs) and all(P.is_call(r, *MAP_REMOVALS) and key_field in P.fpath(p) for r, p in rs)
                 R.ob('C04.abort', ('server table aborting removal', 'drops the removed entry\'s timer'), ok, 'the timer removed is the one armed for that entry', [g.loc(t)])
             if callee_is(t, 'AbortHandle::abort', 'DelayQueue::remove', 'DelayQueue::clear', 'HashMap::insert', 'HashMap::clear', 'util::Compact::compact'):
-                R.ob('C04.abort', ('server table aborting removal', 'miss has no effect', t['callee'].split('::')[-1]), bool(guarded_by_variant(F, P, g, bb, rm, ['Some', 'Continue'])),
+                sites_ = own_sites(F, T, m, g, bb)     # an effect inside a helper is judged where the aborting removal calls that helper
+                R.ob('C04.abort', ('server table aborting removal', 'miss has no effect', t['callee'].split('::')[-1]), bool(sites_) and all(guarded_by_variant(F, P, g2, b2, rm, ['Some', 'Continue']) for g2, b2 in sites_),
                      'every effect of the aborting removal is on the hit edge; cancelling an unknown or finished id does nothing', [g.loc(t)])
     # any other mutation of the table's own state (a call taking &mut of a field of self) is on the hit edge as well
     for g in T.bodies(m):
@@ -117,7 +120,7 @@ def run(ctx):
             hr = P.root(P._field(('agg', g.id, st[0][0], st[0][1]), abort_field))
             ok = bool(hr) and all(r == pair and norm_path(p) == (('f', 0),) for r, p in hr)
         ret = P.root(P._field(P._variant(P._local_whole(ins, 0), 'Ok'), 0, 0))
-        ok = ok and bool(ret) and all(r == pair and norm_path(p) == (('f', 1),) for r, p in ret)
+        ok = ok and bool(ret) and all(P.unbound(r) == pair and norm_path(p)[-1:] == (('f', 1),) for r, p in ret)
     R.ob('C04.abortable', ('server table insert', 'handle stored, pair-mate registration returned'), ok,
          'registering a request creates one abort pair: the handle is stored under the id, the registration is returned', [ins.loc(ins.d)])
     reg = S.register
@@ -130,11 +133,13 @@ def run(ctx):
         same = bool(rr)
         for r, p in rr:
             # the registration is the second half of the pair created inside the table insert, inlined with this call's arguments
-            if not (r[0] == 'bound' and r[2] == ins.id and P.is_call(r, 'AbortHandle::new_pair') and norm_path(p) == (('f', 1),)):
+            ins_bodies = {b_.id for b_ in T.bodies(ins)}
+            if not (r[0] == 'bound' and r[2] in ins_bodies and P.is_call(r, 'AbortHandle::new_pair') and norm_path(p)[-1:] == (('f', 1),)):
                 ok = False
                 continue
-            ka = P.root(r[3][kp2 - 1])
-            if not ({x for x, _ in ka} == {x for x, _ in idr} and all(P.fpath(q)[-1:] == ('id',) for _, q in ka)):
+            # among the arguments the pair's creation was inlined with, one is this request's id (the key it is stored under)
+            idset = {P.unbound(x) for x, _ in idr}
+            if not any({P.unbound(x) for x, _ in P.root(a_)} == idset and all(P.fpath(q)[-1:] == ('id',) for _, q in P.root(a_)) and P.root(a_) for a_ in r[3]):
                 same = False
         R.ob('C04.abortable', ('BaseChannel request registration', 'tracked request carries the registration made for its id'), ok and same,
              'the registration handed out with a request is the one created when that request\'s id was stored', [reg.loc(s)])
